@@ -22,6 +22,7 @@ type Options struct {
 	AnyType    bool // empty schema {}
 	Docs       bool // descriptions (multi-paragraph, shared between items) and deprecated flags
 	DocsDense  bool // with Docs: nearly every item is described and half of them deprecated
+	Discs      bool // with Sums: oneOf over object components with an explicit discriminator and mapping
 	Names      func(t *rapid.T, label string) string
 }
 
@@ -227,8 +228,39 @@ func (g *genCtx) genArray(t *rapid.T, depth int) *Schema {
 func (g *genCtx) genSum(t *rapid.T, depth int) *Schema {
 	s := &Schema{}
 	var variants []*Schema
-	sumKind := rapid.IntRange(0, 1).Draw(t, "sumkind")
+	maxKind := 1
+	if g.opt.Discs {
+		maxKind = 2
+	}
+	sumKind := rapid.IntRange(0, maxKind).Draw(t, "sumkind")
 	switch sumKind {
+	case 2: // explicit discriminator: variants are fresh object components whose "kind" member admits one value
+		n := rapid.IntRange(2, 3).Draw(t, "nvariants")
+		s.Disc = &Disc{Prop: "kind", Mapping: map[string]string{}}
+		for i := 0; i < n; i++ {
+			name := fmt.Sprintf("DV%d", len(g.comps)+len(g.compList)+i)
+			for g.comps[name] != nil {
+				name += "x"
+			}
+			o := &Schema{Type: "object"}
+			o.Props = append(o.Props, Prop{Name: "kind", Schema: &Schema{Type: "string", Enum: []json.RawMessage{raw(name)}}, Required: true})
+			// 0-2 further members; a variant with the discriminator alone matters (the encoder has a
+			// special path for "no fields")
+			for j, m := 0, rapid.IntRange(0, 2).Draw(t, "members"); j < m; j++ {
+				o.Props = appendProp(o.Props, Prop{Name: []string{"alpha", "beta", "common"}[rapid.IntRange(0, 2).Draw(t, "member")], Schema: g.genLeaf(t), Required: rapid.Bool().Draw(t, "req")})
+			}
+			if g.opt.Maps {
+				switch rapid.IntRange(0, 3).Draw(t, "addprops") {
+				case 0:
+					o.AddProps = &Schema{Type: "string"}
+				case 1:
+					o.AddPropsBool = boolp(true)
+				}
+			}
+			g.comps[name] = o
+			s.Disc.Mapping[name] = name
+			variants = append(variants, &Schema{Ref: name})
+		}
 	case 0: // pairwise different JSON types
 		kinds := rapid.Permutation([]string{"string", "integer", "boolean", "array", "object"}).Draw(t, "kinds")
 		n := rapid.IntRange(2, 3).Draw(t, "nvariants")
